@@ -270,7 +270,14 @@ void __wrap_ldb_batch_set_sequence(ldb_batch_t *batch, ldb__seqnum_t seq) {
       sb_printf(&g_abs, "%s%d:%d:%d:%d", first ? "" : ",", t, th ? th->cur_op : -1, c, w->sync ? 1 : 0);
       first = 0; acc += c; nm++;
     }
-    sb_printf(&g_abs, " lsc=%ld\n", (long)__atomic_load_n(&n_logsync, __ATOMIC_SEQ_CST));
+    sb_printf(&g_abs, " lsc=%ld queue=", (long)__atomic_load_n(&n_logsync, __ATOMIC_SEQ_CST));
+    first = 1;
+    for (w = g_db->writers.head; w != NULL; w = w->next) {      /* the whole writer queue as the leader saw it (Group.v) */
+      sb_printf(&g_abs, "%s%d:%lx:%d:%d", first ? "" : ",", tid_of_addr(w), (unsigned long)(w->batch ? ldb_batch_size(w->batch) : 0),
+                w->sync ? 1 : 0, w->batch != NULL);
+      first = 0;
+    }
+    sb_printf(&g_abs, "\n");
     n_grp++; if (nm > 1) n_grp_multi++;
   }
 }
